@@ -865,7 +865,6 @@ designator(struct scope *s, struct type *t, unsigned long long *offset)
 			m = typemember(t, name, offset);
 			if (!m)
 				error(&tok.loc, "%s has no member named '%s'", t->kind == TYPEUNION ? "union" : "struct", name);
-			free(name);
 			t = m->type;
 			break;
 		default:
@@ -926,7 +925,6 @@ builtinfunc(struct scope *s, enum builtinkind kind)
 			error(&tok.loc, "struct/union has no member named '%s'", name);
 		designator(s, m->type, &offset);
 		e = mkconstexpr(&typeulong, offset);
-		free(name);
 		break;
 	case BUILTINTYPESCOMPATIBLEP:
 		t = typename(s, NULL, NULL);
